@@ -86,6 +86,9 @@ type Opts struct {
 	// part of maxp (Outlines.Maxp == nil), as fonts read from files with a
 	// version 0.5 maxp table do.
 	NilMaxp bool
+	// BigGlyf asks for a glyf table of 128-192 KiB (TrueType fonts with
+	// enough simple glyphs to carry the padding).
+	BigGlyf bool
 }
 
 // Case is a generated font with the facts the oracles need.
@@ -428,8 +431,11 @@ func genGlyf(t *rapid.T, n int, o Opts, c *Case, fl *filler) *glyf.Outlines {
 	// loca format changes (offsets/2 must fit 16 bits: 0x1FFFE is the last
 	// size the short format can express) and at which a conservative writer
 	// switches (0xFFFF).
-	if len(simple) > 0 && rapid.IntRange(0, 3).Draw(t, "glyfSizeClass") == 0 {
+	if len(simple) > 0 && (o.BigGlyf || rapid.IntRange(0, 3).Draw(t, "glyfSizeClass") == 0) {
 		target := rapid.SampledFrom([]int{0xFFFE, 0x10000, 0x1FFFC, 0x1FFFE, 0x20000, 0x20000, 0x20000, 0x20002}).Draw(t, "glyfSize")
+		if o.BigGlyf {
+			target = rapid.SampledFrom([]int{0x1FFFE, 0x20000, 0x20002, 0x30000}).Draw(t, "glyfSizeBig")
+		}
 		need := target - len(gg.Encode().GlyfData)
 		const per = 30000
 		if need > 0 && need <= per*len(simple) {
